@@ -59,3 +59,24 @@ package sqlx
 //@   opaque mapStructFieldsIntoSlice, ValidatePtr
 //@   ensures [empty-result] !ret(scanner.Next) ==> calls(Scan) == 0 && (ret(scanner.Err) != nil ==> result == ret(scanner.Err)) && (ret(scanner.Err) == nil ==> result == ErrNotFound)
 //@   ensures [struct-by-columns] calls(mapStructFieldsIntoSlice) == 1 ==> arg(mapStructFieldsIntoSlice, 1) == ret(scanner.Columns, 0) && arg(mapStructFieldsIntoSlice, 2) == strict && (ret(mapStructFieldsIntoSlice, 1) != nil ==> result == ret(mapStructFieldsIntoSlice, 1) && calls(Scan) == 0) && (ret(mapStructFieldsIntoSlice, 1) == nil ==> calls(scanner.Scan) == 1 && arg(scanner.Scan, 0) == ret(mapStructFieldsIntoSlice, 0) && result == ret(scanner.Scan))
+
+// ---------------- what the connection's breaker counts as a failure (C01) ----------------
+// Benign errors (no rows, finished transaction, caller cancellation) and success are acceptable whatever the
+// user-supplied classifier says: the classifier can only widen the set. Nothing else is acceptable without it.
+//@ func (*commonConn).acceptable
+//@   prop C01
+//@   requires db != nil
+//@   let benign = err == nil || err == sql.ErrNoRows || err == sql.ErrTxDone || err == context.Canceled
+//@   ensures [benign-always-acceptable] benign ==> result
+//@   ensures [no-classifier-benign-only] db.accept == nil ==> result == benign
+//@   ensures [classifier-widens] db.accept != nil && !benign ==> calls(db.accept, err) == 1 && result == ret(db.accept)
+
+// unmarshalRows into a slice of structs: every row is mapped with the caller's strictness (so a strict query
+// rejects rows whose columns do not cover the destination, row by row) against the columns of this result set,
+// and the row is scanned into exactly the destinations the mapping returned.
+//@ func unmarshalRows
+//@   prop C11
+//@   opaque mapStructFieldsIntoSlice, ValidatePtr, Deref
+//@   loop 2 iteration-ensures [row-mapped-with-callers-strictness] calls(mapStructFieldsIntoSlice) == 1 && arg(mapStructFieldsIntoSlice, 2) == strict && arg(mapStructFieldsIntoSlice, 1) == columns
+//@   loop 2 iteration-ensures [row-scanned-into-mapped-destinations] ret(mapStructFieldsIntoSlice, 1) == nil && calls(scanner.Scan) == 1 && arg(scanner.Scan, 0) == ret(mapStructFieldsIntoSlice, 0) && before(mapStructFieldsIntoSlice, Scan)
+//@   ensures [mapping-error-returned] calls(mapStructFieldsIntoSlice) >= 1 && ret(mapStructFieldsIntoSlice, 1, 1) != nil ==> result == ret(mapStructFieldsIntoSlice, 1, 1)
